@@ -113,7 +113,7 @@ pub struct Field {
 
 #[derive(Clone, Debug, Serialize, Deserialize, PartialEq, Eq, Hash)]
 pub struct Huge {
-    /// "stride" or "hi0" (upper bound of the first listed range)
+    /// "stride", "hi0" (upper bound of the first listed range) or "count" (array length)
     pub part: String,
     pub value: u64,
 }
@@ -244,6 +244,11 @@ pub struct Layout {
     /// `#[derive(PartialEq, Eq)]`, bit 2 `#[derive(Debug)]` (only rendered without the `debug` option)
     #[serde(default)]
     pub derives: u8,
+    /// only meaningful for an entry of `inners`: != 0 means the type is not a `#[bitfield]` at all but a
+    /// hand-written struct that merely offers the two raw-value conversions ("any type offering the same raw-value
+    /// conversions", C08): 1 = `raw_value(self)`, 2 = `raw_value(&self)`
+    #[serde(default)]
+    pub handwritten: u8,
 }
 
 pub fn is_native_width(bits: u32) -> bool {
